@@ -80,8 +80,10 @@ def run(tier, seed, replay=None):
                 stats['audit_files'] += 1
                 for ln, line in enumerate(open(os.path.join(root, f)), 1):
                     if AUDIT.search(line) and not line.strip().startswith('//'):
-                        violations.append(dict(kind='property', request='%s:%d' % (os.path.join(root, f), ln),
-                                               oracle='source audit: order- or environment-dependent API in the expansion code: ' + line.strip()[:200]))
+                        # an audit hit alone does not exhibit two different expansions: it is reported
+                        # like a broken correspondence (no-failing-input-found) unless a case below differs
+                        violations.append(dict(kind='correspondence', request='%s:%d' % (os.path.join(root, f), ln),
+                                               oracle='corr:audit: order- or environment-dependent API in the expansion code (determinism is no longer shown by C07_hasher_irrelevant + the audit): ' + line.strip()[:200]))
     cases = [tie_case(rng), composite_case(rng)]
     kinds = ['multi', 'nested_big', 'tie', 'composite', 'flat', 'nested', 'unsized2', 'tworoots']
     while len(cases) < n:
